@@ -145,11 +145,11 @@ def _print(p):
 
 def _step(st):
     if st["op"] == "put":
-        o = "CPut %s %s %d" % (vlib.zlit(st["k"]), vlib.zlit(st["v"]), st["ht"])
+        o = "Put %s %s %d" % (vlib.zlit(st["k"]), vlib.zlit(st["v"]), st["ht"])
     elif st["op"] == "get":
-        o = "CGet %s" % vlib.zlit(st["k"])
+        o = "Get %s" % vlib.zlit(st["k"])
     else:
-        o = "CRemove %s" % vlib.zlit(st["k"])
+        o = "Remove %s" % vlib.zlit(st["k"])
     return "(%s, mkO %s %s %s)" % (o, vlib.zlit(st["ans"]), vlib.zlist(st["gets"]), _print(st["print"]))
 
 
